@@ -311,6 +311,11 @@ func (c *RaftCluster) LoadClusterInfo() (*RaftCluster, error) {
 	)
 	for _, store := range c.GetStores() {
 		c.hotStat.GetOrCreateRollingStoreStats(store.GetID())
+		// The store objects are fresh (all counters zero) while the region cache may
+		// already be populated (loaded above, or kept from an earlier leadership term
+		// of this member): derive the per-store statistics from it now instead of
+		// waiting for a heartbeat that happens to change a region of the store.
+		c.updateStoreStatusLocked(store.GetID())
 	}
 	return c, nil
 }
